@@ -197,7 +197,7 @@ def run(tier, seed):
         "structure (cables, per-bit endpoints, instances with parameters/attributes, assigns, primitives, top) must "
         "equal the model; states = distinct texts")
     found = {}
-    deadline = time.time() + (200 if tier == "quick" else 3000)
+    deadline = time.time() + (900 if tier == "quick" else 6000)
     cs = cases(tier)
     k = seed % 7
     engine_b.run_cases(ID, cs[k:] + cs[:k], cov, found, deadline, level="verilog-texts/" + tier)
